@@ -43,48 +43,6 @@ theorem success_ack_iff_paid {w w' : World} {blk : Block} {p : PacketIn} {rv tv 
         rw [hd] at hd'; cases hd'
         rw [hp] at hp'; cases hp'
 
-theorem bankSend_spec {w w' : World} {src dst : Addr} {d : String} {amt : Nat} (h : w.bankSend src dst d amt = some w') :
-    amt ≤ w.bankBal src d ∧ ∀ a x, w'.bankBal a x =
-      if (dst, d) = (a, x) then (if (src, d) = (a, x) then w.bankBal a x - amt else w.bankBal a x) + amt
-      else if (src, d) = (a, x) then w.bankBal a x - amt else w.bankBal a x := by
-  unfold World.bankSend at h
-  split at h
-  · simp at h
-  · rename_i hlt
-    simp at h; subst h
-    refine ⟨by omega, ?_⟩
-    intro a x
-    simp only [World.bankBal, AMap.get?_set]
-    by_cases h1 : (dst, d) = (a, x)
-    · cases h1
-      by_cases h2 : (src, d) = (dst, d)
-      · cases h2; simp
-      · simp [h2]
-    · by_cases h2 : (src, d) = (a, x)
-      · cases h2; simp [h1]
-      · simp [h1, h2]
-
-theorem tokSend_spec {w w' : World} {t src dst : Addr} {amt : Nat} (h : w.tokSend t src dst amt = some w') :
-    amt ≤ w.tokBal t src ∧ ∀ t' a, w'.tokBal t' a =
-      if (t, dst) = (t', a) then (if (t, src) = (t', a) then w.tokBal t' a - amt else w.tokBal t' a) + amt
-      else if (t, src) = (t', a) then w.tokBal t' a - amt else w.tokBal t' a := by
-  unfold World.tokSend at h
-  split at h
-  · simp at h
-  · rename_i hlt
-    simp at h; subst h
-    refine ⟨by omega, ?_⟩
-    intro t' a
-    simp only [World.tokBal, AMap.get?_set]
-    by_cases h1 : (t, dst) = (t', a)
-    · cases h1
-      by_cases h2 : (t, src) = (t, dst)
-      · cases h2; simp
-      · simp [h2]
-    · by_cases h2 : (t, src) = (t', a)
-      · cases h2; simp [h1]
-      · simp [h1, h2]
-
 /-- **C12, success ⇒ paid in full and balance reduced by it**: with a success acknowledgement the
 channel balance of the redeemed denomination dropped by exactly the packet's amount, and exactly that
 amount moved from the contract to the receiver (native: bank balance; cw20: token balance). -/
@@ -129,16 +87,6 @@ theorem success_ack_effects {w w' : World} {blk : Block} {p : PacketIn} {rv tv f
         refine ⟨?_, ?_, hle2⟩
         · have := hb t p.receiver; simp [Ne.symm hrs] at this; exact this
         · have := hb t w.self; simp [hrs] at this; exact this
-
-/-- `undo_reduce` after `reduce` gives back the very same map. -/
-theorem undoReduce_reduce_eq {m m' m'' : ChanMap} {c : String} {d : Denom} {amt : Nat}
-    (h : reduceBalance m c d amt = .ok m') (h2 : undoReduce m' c d amt = .ok m'') : m'' = m := by
-  obtain ⟨cs, hg, hle, rfl, _, _⟩ := reduceBalance_spec h
-  simp [undoReduce] at h2
-  obtain ⟨_, rfl⟩ := h2
-  have e : cs.outstanding - amt + amt = cs.outstanding := by omega
-  rw [AMap.set_set, e]
-  exact AMap.set_get_self m (c, d) cs hg
 
 /-- **C12, error_ack_state_unchanged**: whenever the final acknowledgement of an incoming packet is
 an error, the world after the transaction is the world before it — channel balances, allow list,
